@@ -16,7 +16,6 @@ import (
 	"strconv"
 	"strings"
 	"sync/atomic"
-	"time"
 
 	"github.com/mithrandie/csvq/lib/option"
 	"github.com/mithrandie/csvq/lib/query"
@@ -157,6 +156,7 @@ type Runner struct {
 	afterFailedCommit bool
 	commitLaw         bool // a law about COMMIT failed in this runner
 	ReloadEachAttempt bool // ScanCancel: ROLLBACK before every attempt
+	pendingCreate     int  // CREATE TABLE statements since the last COMMIT
 }
 
 var wrapSeq int64
@@ -382,7 +382,6 @@ func NewSequence(g *hc.Gen, o *hc.Out, root string, seqNo int, twin bool, maxRow
 	r.CPU = 1 + g.Intn(4)
 	mk := func(dir string) *hc.Proc {
 		pr := hc.NewProc(dir)
-		pr.P.Tx.WaitTimeout = 500 * time.Millisecond
 		pr.SetCPU(r.CPU)
 		for _, d := range decls {
 			if d.t.File {
@@ -1674,10 +1673,7 @@ func (c cancelCtx) Err() error {
 }
 
 type Outcome struct {
-	// TouchedStdin: the statement loaded the STDIN table; csvq takes the stdin lock again for every data-changing
-	// statement (the loaded view is never marked "for update"), so a second such statement in the same transaction
-	// waits for the lock time-out: the streams COMMIT after every statement that touches STDIN
-	TouchedStdin bool
+	TouchedStdin bool // the statement names the STDIN table
 	Err          error
 	Line         string // the implementation's canonical answer
 	Counts       map[string]int
@@ -1824,6 +1820,12 @@ func (r *Runner) Exec(st *Stmt, cancelAt int64) *Outcome {
 		if code < 0 || code == query.ErrorFatal {
 			o.Law("internal_error", replay())
 		}
+		if code == query.ErrorFileLockTimeout || strings.Contains(err.Error(), "lock wait timeout") {
+			// one process, one transaction per repository: nothing else holds a lock; in particular a statement on
+			// STDIN / temporary tables never has to wait (the stdin re-lock defect fixed in 1986c14)
+			o.Law("stdin_second_statement_timeout", replay())
+			out.Failed = append(out.Failed, "stdin_second_statement_timeout")
+		}
 		out.Line = fmt.Sprintf("E%d %s", code, Marks(r.Pr))
 	} else {
 		out.Counts = Counts(stdout)
@@ -1847,6 +1849,9 @@ func (r *Runner) Exec(st *Stmt, cancelAt int64) *Outcome {
 		out.Line = fmt.Sprintf("ok %s %s", countsStr(out.Counts), Marks(r.Pr))
 		if st.After != nil {
 			st.After()
+		}
+		if st.NewTable != "" {
+			r.pendingCreate++
 		}
 	}
 	tg := append([]string{}, st.Targets...)
@@ -1941,11 +1946,42 @@ func (r *Runner) listing() map[string]bool {
 	return m
 }
 
-// AfterStdin commits (main and control run) when the statement touched the STDIN table.
-func (r *Runner) AfterStdin(out *Outcome) {
-	if out != nil && out.TouchedStdin {
-		r.Commit()
+// AfterStdin: formerly a COMMIT after every statement that touched STDIN (csvq took the stdin lock again for every
+// data-changing statement, fixed in 1986c14); STDIN is now treated like any other table.
+func (r *Runner) AfterStdin(out *Outcome) {}
+
+// Rollback: ROLLBACK on the main and the control processor; every table is read back and compared with the model
+// (files are re-read from disk, temporary tables return to their restore point, STDIN to the session's copy).
+// Not used while a CREATE TABLE is pending (its file would disappear).
+func (r *Runner) Rollback() {
+	o := r.O
+	if _, err := r.Pr.Exec("ROLLBACK;"); err != nil {
+		o.Law("rollback_failed", err.Error())
+		return
 	}
+	o.Case("c05.rollback", "ok "+Marks(r.Pr))
+	if r.Twin != nil {
+		if _, err := r.Twin.Exec("ROLLBACK;"); err != nil {
+			o.Law("rollback_failed", "twin: "+err.Error())
+		}
+	}
+	for _, t := range r.Tabs {
+		sn := r.snap(t.Name)
+		o.Case("c05.dump "+t.Name, sn.Dump(t.Name))
+		if len(sn.Header) > 0 {
+			t.Cols = sn.Header
+		}
+	}
+	o.Count("rollback")
+}
+
+// CommitOrRollback: mostly COMMIT, sometimes ROLLBACK (never with a pending CREATE TABLE).
+func (r *Runner) CommitOrRollback() {
+	if r.pendingCreate == 0 && r.G.Intn(3) == 0 {
+		r.Rollback()
+		return
+	}
+	r.Commit()
 }
 
 func (r *Runner) fileBytes() map[string]string {
@@ -2009,6 +2045,7 @@ func (r *Runner) CommitAt(cancelAt int64) bool {
 		return false
 	}
 	o.Case("c05.commit", "ok "+Marks(r.Pr))
+	r.pendingCreate = 0
 	if r.Twin != nil {
 		if _, err := r.Twin.Exec("COMMIT;"); err != nil {
 			o.Law("commit_failed", "twin: "+err.Error())
@@ -2225,7 +2262,6 @@ func newFixedRunner(g *hc.Gen, o *hc.Out, root, tag string, tabs []fixedTab) *Ru
 	}
 	mk := func(dir string) *hc.Proc {
 		pr := hc.NewProc(dir)
-		pr.P.Tx.WaitTimeout = 500 * time.Millisecond
 		pr.SetCPU(1)
 		for _, ft := range tabs {
 			if ft.file {
@@ -2593,6 +2629,12 @@ func StdinCorpus(g *hc.Gen, o *hc.Out, root string) {
 			st.Wrap = wrap
 			r.AfterStdin(r.Exec(st, 0))
 			o.Count("corpus:stdin")
+		}
+		// one transaction per round: many statements on STDIN, files and temporary tables together, then COMMIT or ROLLBACK
+		if round == 1 {
+			r.Rollback()
+		} else {
+			r.Commit()
 		}
 	}
 }
